@@ -174,7 +174,7 @@ def oracle(prop, case, out):
         else:
             raw_dropped.add(w)
     outv = [None] * n                            # (value, time) of last emission
-    act = [[bool(a) for (_s, a, _r) in nd["ins"]] for nd in nodes]   # current activity of every input (run-time make_active / make_passive)
+    actv = [[bool(a) for (_s, a, _r) in nd["ins"]] for nd in nodes]   # current activity of every input (run-time make_active / make_passive)
     emitted_at = {}                              # (node, t) -> True
     err = any(l[0] == 19 for l in out)
     cycles = [l[1] for l in out if l[0] == 10]
@@ -360,7 +360,7 @@ def oracle(prop, case, out):
                         raw_dropped.add(raw[i])   # schedule_now while being evaluated overrides a later raw request
                         raw[i] = None
                 elif code in (9, 10) and 0 <= a < len(nd["ins"]):
-                    act[i][a] = (code == 10)
+                    actv[i][a] = (code == 10)
                 elif code == 6 and nd["ho"]:
                     pass
                 opi += 1
@@ -370,7 +370,7 @@ def oracle(prop, case, out):
             emitted_at[(i, t)] = True
             for j in range(n):                    # which inputs are subscribed at the moment of the write
                 for s_j, (src, _a, _r) in enumerate(nodes[j]["ins"]):
-                    if src == i and act[j][s_j]:
+                    if src == i and actv[j][s_j]:
                         woke[(j, t, s_j)] = True
         pos += 1
     if open_eval is not None:
@@ -405,7 +405,7 @@ def oracle(prop, case, out):
 PROP_KINDS = {
     "C01": {"evaluated_twice", "scan_order", "stale_read", "not_evaluated", "run_without_eval"},
     "C02": {"cycle_order", "cycle_window", "missed_wakeup", "missed_raw", "empty_cycle", "spurious_cycle", "spurious_cycle_abandoned"},
-    "C03": {"spurious_eval", "spurious_eval_abandoned", "stale_read", "ran_not_ready", "run_without_eval", "run_index",
+    "C03": {"missed_wakeup", "spurious_eval", "spurious_eval_abandoned", "stale_read", "ran_not_ready", "run_without_eval", "run_index",
             "evaluated_twice", "not_evaluated", "not_run", "emit_value"},
     "C18": {"query_mismatch", "tag_multi", "missed_wakeup", "spurious_eval_abandoned", "trace_shape"},
 }
